@@ -158,7 +158,9 @@ class _WriteProxy:
 
 def _open(file, mode="r", *a, **k):
     lc = _ctx()
-    if (lc is not None and isinstance(file, (str, bytes, os.PathLike)) and mode in ("wb", "bw", "xb", "ab") and not a
+    # pathlib passes (buffering=-1, encoding=None, errors=None, newline=None) positionally through io.open
+    default_args = all(v in (-1, None) for v in a) and all(v in (-1, None) for v in k.values())
+    if (lc is not None and isinstance(file, (str, bytes, os.PathLike)) and mode in ("wb", "bw", "xb", "ab") and default_args
             and _under_scratch(file)):
         raw = _real_open(file, mode, buffering=0)
         # the file now exists (created or truncated) but holds none of the new data yet: a step boundary
@@ -272,6 +274,8 @@ def install():
     sys.addaudithook(_audit)
     os.stat = _stat
     builtins.open = _open
+    import io
+    io.open = _open          # pathlib's Path.open / write_bytes go through io.open
     B.urlretrieve = _fake_urlretrieve
     urllib.request.urlretrieve = _fake_urlretrieve
     B.time = _FakeTime(B.time)
